@@ -1814,7 +1814,7 @@ fn emptying_eq(case: &Case, alt: Option<&Alt>) -> bool {
         return true;
     }
     case.cons.iter().any(|c| match c {
-        Con::Fluent { t, .. } => outside(t),
+        Con::Fluent { t, .. } => outside(&t.norm()),
         Con::Fun { f, then: Some((Cmp::Eq, e)) } => {
             // the result variable is an interval: its bounds, not its reachable values, count
             let mut vals: Vec<i64> = vec![];
